@@ -246,6 +246,10 @@ def main():
             plan = [(8, 15000, ctx.seed)]
         # the vptr_map constructor on registered classes, alone (the route that used operator[]): a normal run
         plan = [('main', th, it, sd) for (th, it, sd) in plan]
+        # first uses inside the threads (nothing called, no virtual_ptr made before they start): lazily initialised shared state
+        plan.insert(0, ('cold', 8, 400 if (ctx.thorough or search) else 100, ctx.seed))
+        if ctx.thorough or search:
+            plan.insert(1, ('cold', 16, 200, ctx.seed + 500))
         plan.append(('vmap-registered', 8, 60000 if (ctx.thorough or search) else 5000, ctx.seed))
         for (mode, th, it, sd) in plan:
             r = tsan_run(binp, mode, th, it, sd)
